@@ -335,7 +335,7 @@ def render_files(spec, log):
             srcs = '["d.build_defs.in", ":pre"]'
         out["defs/BUILD"] = (pre + 'genrule(\n    name = "gen",\n    srcs = %s,\n    outs = ["g.build_defs"],\n'
                              '    cmd = %s,\n    visibility = ["PUBLIC"],\n)\n' % (srcs, asp_str('echo "S %s" >> %s; cat $PKG_DIR/d.build_defs.in > $OUT; echo "E %s ok" >> %s' % (lab, log, lab, log)))).encode()
-        out["defs/d.build_defs.in"] = (DEFS_SRC + "# %s\n" % spec.get("defs_salt", "")).encode()
+        out["defs/d.build_defs.in"] = (DEFS_SRC + spec.get("defs_extra", "") + "# %s\n" % spec.get("defs_salt", "")).encode()
     for p in sorted(spec["pkgs"]):
         pk = spec["pkgs"][p]
         s = ""
@@ -343,6 +343,7 @@ def render_files(spec, log):
             s += pk["raw_prefix"]
         if spec.get("defs") and pk.get("use_defs"):
             s += 'subinclude("//defs:gen")\n\n'
+            s += pk.get("raw_after_subinclude", "")
         for t in pk["targets"]:
             s += render_target(p, t, log, spec.get("defs") and pk.get("use_defs")) + "\n"
         if pk.get("raw_suffix"):
